@@ -238,12 +238,13 @@ FILTER_NOTE = "Pattern classes: literals, 'x/**', '**/y' and their negations (th
 
 CHECKS["C10"] = dict(
     level_text="The real NewFilterFS/filterFS.Walk with the real patternmatcher is executed on a tree with symbolic names for every include/exclude list inside the bounds and compared with two references written in the harness: the statement's naive evaluation and the same evaluation with parent results threaded down. Outside the class where the two references differ the walk must equal the naive reference; inside it the only tolerated deviation is the dependency's incremental semantics (a known finding); any pruning or parent-emission error differs from both and is a violation.",
-    level_note="Bounds: tree X/{P, Q/{R}}, Y; lists of up to 2 include and 1 exclude (or 1 and 2) patterns from 14 templates in the quick tier, 2 and 2 in the thorough tier. " + FILTER_NOTE + "The map function and follow-paths are outside (C18). " + BASE_TRUST,
+    level_note="Bounds: tree X/{P, Q/{R}}, Y; lists of up to 2 include and 1 exclude (or 1 and 2) patterns from 14 templates in the quick tier, 2 and 2 in the thorough tier. " + FILTER_NOTE + "The map function is covered on its own (without patterns: with patterns the statement leaves open whether ancestors of entries the map drops are reported); follow-paths are C18. " + BASE_TRUST,
     assumptions=["the underlying view is a harness FS that implements SkipDir the way filepath.WalkDir does"],
     obligations=[
         ob("VH_C10_filter", dict(NI=2, NE=0), covers=["incremental-class", "agreeing-class"], bounds="<=2 include patterns"),
         ob("VH_C10_filter", dict(NI=0, NE=2), covers=["incremental-class", "agreeing-class"], bounds="<=2 exclude patterns"),
         ob("VH_C10_filter", dict(NI=1, NE=1), covers=["agreeing-class"], bounds="<=1 include and <=1 exclude pattern"),
+        ob("VH_C10_map", {}, covers=["skipdir", "exclude"], bounds="map function only: every assignment of keep(+rewrite)/exclude/skip-dir to the 5 entries"),
         ob("VH_C10_glob", dict(NI=1, NE=0), covers=["done"], bounds="wildcard templates ('*' inside a component, '**' across components), concrete names from {a, b, ab}, <=1 include"),
         ob("VH_C10_glob", dict(NI=0, NE=1), covers=["done"], bounds="wildcard templates, <=1 exclude"),
         ob("VH_C10_glob", dict(NI=1, NE=1), T, covers=["done"], bounds="wildcard templates, <=1 include and <=1 exclude"),
